@@ -61,9 +61,18 @@ def cases(tier, seed, keras3=False):
         kw["min_po2_exponent"] = lo
       if hi is not None:
         kw["max_po2_exponent"] = hi
-    out.append({"cls": cls, "kw": kw, "shape": shape, "kind": rnd.choice(KINDS),
-                "mag": rnd.choice(MAGS), "frozen": cls == "quantized_bits" and rnd.random() < 0.15,
-                "j": rnd.choice([-3, -2, -1, 1, 2, 3]), "idx": i, "seed": seed})
+    case = {"cls": cls, "kw": kw, "shape": shape, "kind": rnd.choice(KINDS),
+            "mag": rnd.choice(MAGS), "frozen": cls == "quantized_bits" and rnd.random() < 0.15,
+            "j": rnd.choice([-3, -2, -1, 1, 2, 3]), "idx": i, "seed": seed}
+    # how the configuration is reached (vf.qenv.build): the way every Q layer reaches auto_po2 is
+    # alpha=None + _set_trainable_parameter(), which also makes the format symmetric
+    r = rnd.random()
+    if alpha == "auto_po2" and r < 0.2:
+      kw["symmetric"] = 1
+      case["route"] = "trainable"
+    elif cls == "quantized_bits" and r < 0.3:
+      case["route"] = "mutate"
+    out.append(case)
   return out
 
 
@@ -158,9 +167,12 @@ def run_case(case, ctx):
                        ("axis" if kw.get("elements_per_scale") is None else "axis+eps"))}
   rng = np.random.default_rng(case["seed"] * 92821 + case["idx"])
   x = make_tensor(case, rng)
-  ok, q = ctx.call(base, qenv.build, {"cls": cls, "kw": kw})
+  ok, q = ctx.call(base, qenv.build, {"cls": cls, "kw": kw, "route": case.get("route"),
+                                      "seed": case["seed"], "idx": case["idx"]})
   if not ok:
     return
+  if case.get("route"):
+    ctx.count("route." + case["route"])
   ok, y = ctx.call(base, qenv.call, q, x)
   if not ok:
     return
